@@ -41,6 +41,11 @@ func (pass *DuplicateObject) processSchema(visitor *Visitor, schema *ast.Schema)
 		return schema, nil
 	}
 
+	// the duplicate does not take the place of another object
+	if schema.HasObject(pass.As.Object) {
+		return nil, fmt.Errorf("duplicate_object: the object '%s' already exists in package '%s'", pass.As.Object, pass.As.Package)
+	}
+
 	duplicate := sourceObj.DeepCopy()
 	duplicate.Name = pass.As.Object
 	duplicate.SelfRef.ReferredPkg = pass.As.Package
